@@ -70,6 +70,7 @@ var seedsHTML = []string{
 	"<a b=\"c\"d='e'f=g>", "<a =b c==d e=>", "<a b='c", "<a b=\"c", "<a b=c", "<a b", "<a", "</a", "</a b=c>", "<a/b/c=d/>", "<a\tb\n=\r\nc\f>",
 	"a<b c=d>e</b>f<g/>h", "<p>a&amp;b&lt;c</p>", "<a b={{c}} {{d}}={{e}} f=\"{{g \"h\" }}\">{{i}}<{{j}}>", "<a b=<%c%> <%d%>>e<%= f %>", "<a b=<?c?> <?d ?>>e<?php f ?>",
 	"{{ \"}}\" }}a{{ '\\'}}' }}", "<% \"%>\" %>a", "<script>{{a}}</script>{{b}}", "<title>{{a}}</title>", "a{{b", "<a {{b", "<a b=\"{{c", "x\x00y<a\x00b=\x00>",
+	"<DIV Class=x><svg>\x00</svg>", "<P>\n<MATH A=b>\x00", "<svg><svg/><svg></svg></svg>a<svg/>b", "<!-- {{ \"-->\" }} --></P{{.N}}><svg>{{a}}</svg>",
 }
 
 var seedsXML = []string{
